@@ -295,7 +295,8 @@ CLAIMS = {
        "`[*]` insertion after a leading variable, none of which is examined. The `%var empty` exception is covered under C01/C03 "
        "(k8v harnesses). No Kani harness serves this property."
        "Added later: scope discipline (which scope guards, bodies and per-value blocks run in; a guarded block's own lets are not visible to its guard), scope delegations, and resolve_function (arguments of built-in calls evaluated in the scope given)."
-       "Added later: extract_variables / block_scope / root_scope (every let under its own name in the table of its kind; cache starts empty), literal and cached answers of resolve_variable, and the exact condition under which `empty` reads the result set.",
+       "Added later: extract_variables / block_scope / root_scope (every let under its own name in the table of its kind; cache starts empty), literal and cached answers of resolve_variable, and the exact condition under which `empty` reads the result set."
+       " Added last: what a parameterised call binds (a literal as ONE entry holding it, never spread; a query / call as answered) and the KIND of that entry (Literal, as for `let`): the latter is KNOWN FINDING KF4 on the pinned tree (bound as Resolved: same(a, [1]) FAILs where a == [1] PASSes) - printed as KNOWN-FINDING, exit 0.",
   design="0b/C15"),
  "C16": dict(
   text="Bounded model checking of the expectation-matching kernel get_status_result (1..3 definitions x all statuses x all expectations: "
